@@ -1,10 +1,13 @@
 use crate::ev::Ctx;
 
 pub mod c04;
+pub mod codec;
 
 pub fn run(ctx: &Ctx) -> Result<(), String> {
     match ctx.id.as_str() {
         "C04" => c04::run(ctx),
+        "C05" => codec::run(ctx, codec::Which::C05),
+        "C06" => codec::run(ctx, codec::Which::C06),
         other => Err(format!("no check registered for {}", other)),
     }
 }
@@ -32,6 +35,8 @@ pub fn replay(path: &str) -> i32 {
     for (k, c) in cases.iter().enumerate() {
         let r: Result<Option<String>, String> = match id.as_str() {
             "C04" => c04::replay_case(c),
+            "C05" => codec::replay_case(c, codec::Which::C05),
+            "C06" => codec::replay_case(c, codec::Which::C06),
             _ => Err(format!("no replay for {}", id)),
         };
         match r {
